@@ -89,15 +89,23 @@ def handleWf (j : Json) : Except String Json := do
     st := start obj
     let mut outs : List Json := [C06.stJsonC06 st n]
     let mut failed := false
+    let mut parsed : List Con := []
     for c in steps.toList do
       if failed then continue
       match ← conOfJson c with
       | .error e => outs := outs ++ [errJson e]; failed := true
       | .ok con =>
+        parsed := parsed ++ [con]
         match addCon st con with
         | .ok st' => st := st'; outs := outs ++ [C06.stJsonC06 st' n]
         | .error e => outs := outs ++ [errJson e]; failed := true
     out := out ++ [("steps", Json.arr outs.toArray)]
+    -- the state everything below is computed from is the one `Workflow.build` (objective, then all constraints) yields —
+    -- the function the C08 theorems are about
+    if !failed then
+      match Workflow.build obj parsed with
+      | .ok st' => st := st'
+      | .error _ => pure ()
   match j.getObjVal? "book" with
   | .ok b =>
     match ← C09.bookOfJson b with
